@@ -684,6 +684,10 @@ func genCreate(m *sysl.Module, app string) (out string, crash string) {
 }
 
 func genDelta(mo, mn *sysl.Module, app string) (out string, crash string) {
+	return genDeltaApps(mo, mn, []string{app}, app)
+}
+
+func genDeltaApps(mo, mn *sysl.Module, apps []string, app string) (out string, crash string) {
 	defer func() {
 		if r := recover(); r != nil {
 			crash = fmt.Sprintf("%v\n%s", r, debug.Stack())
@@ -692,7 +696,7 @@ func genDelta(mo, mn *sysl.Module, app string) (out string, crash string) {
 	lg := logrus.New()
 	lg.SetOutput(io.Discard)
 	v := database.MakeDatabaseScriptView("t", lg)
-	outs := v.ProcessModSysls(mo.GetApps(), mn.GetApps(), []string{app}, "out", "postgres")
+	outs := v.ProcessModSysls(mo.GetApps(), mn.GetApps(), apps, "out", "postgres")
 	fs := afero.NewMemMapFs()
 	if err := database.GenerateFromSQLMap(outs, fs, lg); err != nil {
 		return "", "write: " + err.Error()
@@ -983,6 +987,21 @@ func (c16) Run(c core.Case) core.Outcome {
 			tail = ""
 		}
 		return fail("delta-differs|"+kind+tail, fmt.Sprintf("%sold creation script + delta leaves a different schema than the new creation script: %s\ndelta:\n%s", desc, d, strings.Join(scripts, "\n-- next delta --\n")))
+	}
+	// one generator run over two applications: a second application Aux that undergoes the reverse edit is
+	// processed before Db by the same view object; Db's delta must be byte-identical to the one made alone
+	if e.Mid == nil && len(scripts) == 1 && len(core.Hash(desc)) > 0 && core.Hash(desc)[0]%3 == 0 {
+		auxOld, err1 := compileSchema(map[string]string{"x.sysl": e.New.render("Aux")}, "x.sysl")
+		auxNew, err2 := compileSchema(map[string]string{"x.sysl": e.Old.render("Aux")}, "x.sysl")
+		if err1 == nil && err2 == nil {
+			mo := &sysl.Module{Apps: map[string]*sysl.Application{app: oldM.GetApps()[app], "Aux": auxOld.GetApps()["Aux"]}}
+			mn := &sysl.Module{Apps: map[string]*sysl.Application{app: newM.GetApps()[app], "Aux": auxNew.GetApps()["Aux"]}}
+			both, crash := genDeltaApps(mo, mn, []string{"Aux", app}, app)
+			if crash == "" && both != scripts[0] {
+				return fail("delta-two-apps-differs", fmt.Sprintf("%sthe delta for %s generated in one run after application Aux (which undergoes the reverse edit) differs from the delta generated alone: %s", desc, app, firstDiff(scripts[0], both)))
+			}
+			o.Traces++
+		}
 	}
 	if total > 0 {
 		o.NonTrivial = core.Hash(desc)
